@@ -312,6 +312,7 @@ type Rx struct {
 }
 
 type Term struct {
+	VerByte int // 0: default (version byte 1); otherwise the version byte to send, plus 1
 	Conn   *net.TCPConn
 	V2019  bool
 	BCD    []byte
@@ -375,11 +376,19 @@ func (t *Term) readLoop() {
 }
 
 // Frame builds a terminal frame with this terminal's addressing.
+// verByte is the protocol-version-number byte of the 2019 header (1 unless the test chose another: VerByte = value + 1).
+func (t *Term) verByte() byte {
+	if t.VerByte == 0 {
+		return 1
+	}
+	return byte(t.VerByte - 1)
+}
+
 func (t *Term) Frame(id, serial uint16, body []byte) []byte {
-	return ref.Build(ref.Params{ID: id, V2019: t.V2019, VersionByt: 1, BCD: t.BCD, Serial: serial, Body: body})
+	return ref.Build(ref.Params{ID: id, V2019: t.V2019, VersionByt: t.verByte(), BCD: t.BCD, Serial: serial, Body: body})
 }
 func (t *Term) SubFrame(id, serial, sum, no uint16, body []byte) []byte {
-	return ref.Build(ref.Params{ID: id, V2019: t.V2019, VersionByt: 1, BCD: t.BCD, Serial: serial, Fragmented: true, Sum: sum, No: no, Body: body})
+	return ref.Build(ref.Params{ID: id, V2019: t.V2019, VersionByt: t.verByte(), BCD: t.BCD, Serial: serial, Fragmented: true, Sum: sum, No: no, Body: body})
 }
 
 func (t *Term) Write(b []byte) error {
